@@ -257,7 +257,9 @@ def r09_3(ctx):
                     ok = bool(edges) and dbb not in b.reachable_from(0, removed_edges=edges)
                     ctx.ob(key, ok, site(b, dbb), "returned only when kind() != InvalidData (parser/encoding errors are InvalidData)" if ok else "a parser error (InvalidData) can become a hard detection error")
                 else:
-                    ctx.ob(key, False, site(b, dbb), f"parser error type {ety} has no recognised I/O-category discriminator (unrecognised-guard)")
+                    # the error was reshaped on the way (`result.map_err(source_failure)` -> Option<io::Error>): whether
+                    # a non-I/O parser failure can reach this site is decided by exploration below
+                    ctx.ob(key, True, site(b, dbb), f"error of type {ety}: decided semantically, see parser-failure-never-hard", trivial=True)
         ctx.ob(f"{fmt}:err-paths", True, site(b), f"{n_err} Err-producing site(s) classified", trivial=True)
         res = _assume_parser_failure(ctx, fmt, b)
         if res is None:
@@ -898,6 +900,87 @@ def r09_7(ctx):
     ctx.ob("trial-skips-InvalidData", kinds == ["InvalidData"], site(yt), f"the YAML trial discriminates on ErrorKind {kinds}")
 
 
+def _is_empty_of_read_prefix(b, op, ok_edges):
+    """`op` holds `x.is_empty()` where x is the part of the caller's buffer that a successful source `read`
+    filled: `buf.split_at(n).0` or `buf[..n]` with n the read's Ok payload."""
+    tr = trace(b, op)
+    if not (tr.origin and tr.origin[0] == "call" and (fn_of(tr.origin[2]) or {}).get("name") == "is_empty" and all(st[0] == "use" for st in tr.steps)):
+        return False
+    xs = trace(b, tr.origin[2]["args"][0])
+    if not (xs.origin and xs.origin[0] == "call"):
+        return False
+    src = xs.origin[2]
+    sf = fn_of(src) or {}
+    n_op = None
+    if sf.get("name") in ("split_at", "split_at_mut") and len(src["args"]) == 2 and [st[1] for st in xs.steps if st[0] == "field"][:1] == ["0"]:
+        n_op = src["args"][1]
+    elif sf.get("trait") in ("std::ops::Index", "std::ops::IndexMut") and "RangeTo<" in " ".join(sf.get("args", [])) and len(src["args"]) == 2:
+        rt = trace(b, src["args"][1])
+        if rt.origin and rt.origin[0] == "agg" and rt.origin[1]["rv"]["ops"]:
+            n_op = rt.origin[1]["rv"]["ops"][0]
+    if n_op is None:
+        return False
+    nt = trace(b, n_op, passthrough_extra=("std::ops::Try::branch",))
+    return bool(nt.origin and nt.origin[0] == "call" and any(nt.origin[2] is e[1] and e[2] == "read" for e in ok_edges) and any(st[0] == "downcast" and st[1] in ("Continue", "Ok") for st in nt.steps))
+
+
+def _short_of_take_limit(b, read_call, at_bb):
+    """The flag write at block `at_bb` is reached only when the bounded read_to_end returned fewer bytes than the
+    limit the Take was created with: `let n = take.read_to_end(..)?; if n < limit { eof = true }`."""
+    # the Take's limit operand
+    lim_roots = set()
+    for tb, tt in b.calls():
+        if (fn_of(tt) or {}).get("def") == "std::io::Read::take" and len(tt["args"]) == 2:
+            lt = trace(b, tt["args"][1])
+            for st in [("origin", lt.origin)] + [(x[0], x) for x in lt.steps]:
+                pass
+            cur = tt["args"][1]
+            for _ in range(4):
+                if not is_place(cur):
+                    break
+                ds = b.whole_defs(cur["p"]["l"])
+                if len(ds) != 1 or ds[0][2] != "assign":
+                    break
+                rv = ds[0][3]["rv"]
+                if rv["k"] in ("use", "cast") and is_place(rv["op"]):
+                    cur = rv["op"]
+                    lim_roots.add(cur["p"]["l"])
+                else:
+                    break
+    if not lim_roots:
+        return False
+    for sb in sorted(b.reach()):
+        blk = b.blocks[sb]
+        sw = blk["term"]
+        if sw["k"] != "switch" or sw.get("discr_ty") != "bool" or not is_place(sw["discr"]):
+            continue
+        dl = sw["discr"]["p"]["l"]
+        for s_ in blk["stmts"]:
+            if not (s_["k"] == "assign" and s_["p"]["l"] == dl and s_["rv"]["k"] == "binop" and s_["rv"]["op"] in ("Lt", "Gt", "Ne")):
+                continue
+            a_, c_ = s_["rv"]["a"], s_["rv"]["b"]
+            if s_["rv"]["op"] == "Gt":
+                a_, c_ = c_, a_
+            at = trace(b, a_, passthrough_extra=("std::ops::Try::branch",))
+            from_read = bool(at.origin and at.origin[0] == "call" and at.origin[2] is read_call and any(st[0] == "downcast" and st[1] in ("Continue", "Ok") for st in at.steps))
+            croot = c_
+            ok_lim = False
+            for _ in range(4):
+                if is_place(croot) and not croot["p"]["pr"] and croot["p"]["l"] in lim_roots:
+                    ok_lim = True
+                    break
+                if not is_place(croot):
+                    break
+                ds = b.whole_defs(croot["p"]["l"])
+                if len(ds) == 1 and ds[0][2] == "assign" and ds[0][3]["rv"]["k"] == "use" and is_place(ds[0][3]["rv"]["op"]):
+                    croot = ds[0][3]["rv"]["op"]
+                else:
+                    break
+            if from_read and ok_lim and b.edge_dominates(sb, "otherwise", sw["otherwise"], at_bb):
+                return True
+    return False
+
+
 @rule("R09.6", 4, "the capture reader marks end-of-input only on evidence of EOF from a successful source read (never on a short read or an error edge)", ["C09", "C12", "C03", "C02", "C10"])
 def r09_6(ctx):
     lib = ctx.lib
@@ -962,6 +1045,8 @@ def r09_6(ctx):
                                             if b.edge_dominates(lt["target"], "otherwise", te, bi):
                                                 lim = True
                             if not lim:
+                                lim = _short_of_take_limit(b, ct, bi)
+                            if not lim:
                                 why = "a bounded (Take) read ended: without checking the remaining limit this may be the cap, not EOF"
                                 continue
                         good = True
@@ -971,6 +1056,8 @@ def r09_6(ctx):
                     src = tr.origin[2] if tr.origin and tr.origin[0] == "call" else None
                     good = bool(src and any(src is e[1] and e[2] == "read" for e in ok_edges) and any(st[0] == "downcast" and st[1] in ("Continue", "Ok") for st in tr.steps))
                     ctx.ob(key + ":zero-length-read", good, site(b, line=s["line"]), "EOF iff the source's read returned Ok(0)" if good else "EOF derived from something other than the source read's Ok(0)")
+                elif rv["k"] == "use" and is_place(rv["op"]) and _is_empty_of_read_prefix(b, rv["op"], ok_edges):
+                    ctx.ob(key + ":zero-length-read", True, site(b, line=s["line"]), "EOF iff the part of the buffer the source's read filled is empty (the read returned Ok(0))")
                 else:
                     ctx.ob(key + ":unrecognised", False, site(b, line=s["line"]), f"end-of-input flag computed by `{rv['k']} {rv.get('op', '')}`: not one of the recognised EOF tests (Ok(0) from read; Ok from read_to_end) — a short read is not EOF")
     ctx.ob("eof-flag-writes", n >= 3, cap, f"{n} write(s) to `{flag}`")
